@@ -236,13 +236,25 @@ def main():
     # every 6th model: fixed-output-range ops (SOFTMAX / LOGISTIC / TANH) feeding
     # further quantized ops, under 8-bit SYMMETRIC activations
     fixed = (k % 6 == 4)
-    mb, info = gg.gen_model(rng, n_subgraphs=1 if rng.random() < 0.8 else 2,
-                            max_ops=rng.choice([6, 8, 10]) if deep else rng.choice([2, 3, 5]),
-                            op_weights=(['SOFTMAX', 'LOGISTIC', 'TANH'] * 2 + ['FULLY_CONNECTED', 'ADD', 'RESHAPE'])
-                            if fixed else ((['FULLY_CONNECTED'] * 4 + ['TANH', 'ADD', 'MUL']) if deep else None))
+    # every 6th model: a byte-copying op feeding a CONCATENATION whose other operand is 8x
+    # wider (requantization needed), under symmetric activations
+    requant = (k % 6 == 1)
+    if requant:
+      mb, info = gg.reshape_concat_model(rng)
+    else:
+      mb, info = gg.gen_model(rng, n_subgraphs=1 if rng.random() < 0.8 else 2,
+                              max_ops=rng.choice([6, 8, 10]) if deep else rng.choice([2, 3, 5]),
+                              op_weights=(['SOFTMAX', 'LOGISTIC', 'TANH'] * 2 + ['FULLY_CONNECTED', 'ADD', 'RESHAPE'])
+                              if fixed else ((['FULLY_CONNECTED'] * 4 + ['TANH', 'ADD', 'MUL']) if deep else None))
     m_in = og.read(mb)
     qt = quantizer.Quantizer(bytearray(mb))
-    if fixed:
+    if requant:
+      c = rng.choice(['a8sw8', 'a16w8', 'a8w8'])
+      desc = gr.apply_rules(qt, [('.*', '*', ncfg[c][0], c)])
+      if not desc:
+        continue
+      dist['directed:reshape-concat-requantize'] += 1
+    elif fixed:
       desc = gr.apply_rules(qt, [('.*', '*', ncfg['a8sw8'][0], 'a8sw8')])
       if not desc:
         continue
@@ -260,6 +272,9 @@ def main():
     dist['cases'] += 1
     inp = {'recipe': desc, 'model_hex': mb.hex() if len(mb) < 30000 else None}
     data = gg.random_inputs(mb, rng, 1, scale=rng.choice([0.5, 1.0, 2.0]))
+    if requant:
+      for smp in data['serving_default']:
+        smp['b'] = (smp['b'] * np.float32(8.0)).astype(np.float32)
     feed = {key: v[0] for key, v in data.items()}
     try:
       stats = None
